@@ -263,6 +263,7 @@ def _write_harness(spec, tier):
     path = os.path.join(d, f"h_{spec.pid.lower()}.py")
     with open(path, "w") as f:
         f.write(spec.source)
+        f.write("\nhb.COUNTING = True\n")
     return path
 
 
